@@ -257,6 +257,8 @@ async def script(loop, ctx):
 
 
 def run_shard(spec):
+    if spec.get("mode") == "sched":
+        return run_sched_shard(spec)
     res = base.run_scripts(spec, script)
     if spec.get("compare_timeouts"):
         # the bound must not depend on the watchdog: same scripts, other
@@ -273,8 +275,141 @@ def run_shard(spec):
     return res
 
 
+# ---------------------------------------------------------------- scheduled tier
+# Several sessions issue their commands at the same moment -- in particular
+# commands that name the same mailbox right after a (re)start, when it is not
+# active yet -- under the deterministic scheduler.  Oracle as above: every
+# command gets exactly one tagged reply with its tag, within the bound, and the
+# watchdog path is not taken.
+SCHED_CMDS = ["SELECT a", "EXAMINE a", "STATUS a (MESSAGES UNSEEN)", "APPEND a", "STATUS a/b (MESSAGES)", "SELECT inbox", "STATUS inbox (MESSAGES UIDNEXT)", "LIST \"\" *",
+              "SELECT \"a b\"", "COPY 1 a", "STATUS p (MESSAGES)", "SELECT p/c", "SUBSCRIBE a", "CREATE a/new", "APPEND inbox", "EXAMINE Drafts", "STATUS Archive (MESSAGES)"]
+
+
+def run_sched_shard(spec):
+    import asyncio
+    import shutil
+    import tempfile
+
+    from ..rig import run_case
+    from ..vloop import WallWatchdog, fifo_all_strategy, one_at_a_time_strategy, random_strategy
+
+    counts = Counter()
+    cases = []
+    scratch = spec["scratch"]
+    for k in spec["scripts"]:
+        rnd = rng(spec["seed"], "c06sched", k)
+        nsess = rnd.choice([2, 3, 3, 4])
+        same = rnd.random() < 0.6
+        first = rnd.choice(SCHED_CMDS[:5])
+        plans = []
+        for i in range(nsess):
+            cmds = [rnd.choice(SCHED_CMDS[:5]) if same else rnd.choice(SCHED_CMDS)]
+            if i == 0 and same:
+                cmds = [first]
+            cmds += [rnd.choice(SCHED_CMDS) for _ in range(rnd.choice([0, 1, 2]))]
+            plans.append(cmds)
+        restart = rnd.random() < 0.8
+        hashes = set()
+        witness = None
+        ncmds = 0
+        for i in range(spec.get("nsched", 5)):
+            d = tempfile.mkdtemp(prefix="m", dir=scratch)
+            holder = {}
+
+            async def main(loop, d=d):
+                holder["loop"] = loop
+                rig = await Rig(d + "/mail", loop).start()
+                problems = []
+                n = 0
+                try:
+                    await setup(rig, rng(spec["seed"], "c06schedsetup", k), CidFactory("s%d-" % k))
+                    if restart:
+                        await rig.restart()
+                    sessions = [rig.session(f"S{j}") for j in range(len(plans))]
+                    await rig.settle()
+                    hits0 = len(rig.watchdog_hits)
+
+                    async def run(s, cmds):
+                        out = []
+                        for c in cmds:
+                            if getattr(loop, "strategy", None) is not fifo_all_strategy:
+                                for _ in range(loop.rng.randint(0, 2)):
+                                    await loop.run_in_executor(None, int)
+                            if c.startswith("APPEND "):
+                                m = b"From: a@b\r\nSubject: s\r\n\r\nbody\r\n"
+                                r = await s.cmd(b"APPEND " + c.split()[1].encode() + b" {%d+}\r\n" % len(m) + m)
+                            else:
+                                r = await s.cmd(c)
+                            out.append((c, r))
+                            if r.status not in ("OK", "NO", "BAD"):
+                                break
+                        return out
+
+                    tasks = [asyncio.create_task(run(s, cmds)) for s, cmds in zip(sessions, plans)]
+                    if getattr(loop, "strategy", None) is not fifo_all_strategy:
+                        loop.rng.shuffle(tasks)
+                    done, pending = await asyncio.wait(tasks, timeout=900)
+                    for t in pending:
+                        t.cancel()
+                        problems.append(("session-stuck", "a session's commands never completed"))
+                    for t in done:
+                        for c, r in t.result():
+                            n += 1
+                            bye = any(x.kind == "status" and x.status == "BYE" for x in r.responses)
+                            tagged = [x for x in r.responses if x.kind == "tagged"]
+                            if r.status not in ("OK", "NO", "BAD") and not (bye and r.closed):
+                                problems.append(("no-tagged-reply", f"{c!r}: status={r.status} closed={r.closed}"))
+                            if len(tagged) > 1 or any(x.tag != r.tag for x in tagged):
+                                problems.append(("duplicate-or-foreign-tagged", f"{c!r}: {tagged}"))
+                            if r.latency is not None and r.latency >= LATENCY_BOUND:
+                                problems.append(("latency", f"{c!r}: {r.latency:.1f} virtual seconds"))
+                    if len(rig.watchdog_hits) > hits0:
+                        problems.append(("watchdog", rig.watchdog_hits[-1][:200]))
+                    return problems, n
+                finally:
+                    try:
+                        await rig.stop()
+                    except Exception:
+                        pass
+
+            try:
+                strategy = fifo_all_strategy if i == 0 else rnd.choice([random_strategy, random_strategy, one_at_a_time_strategy])
+                sd = rnd.randrange(1 << 30)
+                problems, n = run_case(main, seed=sd, scheduled=True, wall_budget=90, strategy=strategy)
+            except WallWatchdog:
+                counts["sched_wall_watchdog"] += 1
+                continue
+            except Exception:
+                counts["sched_harness_error"] += 1
+                continue
+            finally:
+                shutil.rmtree(d, ignore_errors=True)
+            counts["schedules"] += 1
+            counts["sched_commands"] += n
+            ncmds += n
+            hashes.add(common.h(holder["loop"].trace))
+            if problems and witness is None:
+                witness = {"kind": problems[0][0], "detail": problems[0][1], "all": problems[:4], "cmd": str(plans), "class": "concurrent", "mode": "restarted" if restart else "running", "restarted": restart,
+                           "reply": None, "schedule": list(holder["loop"].trace)[:200], "seed": sd, "strategy": strategy.__name__}
+        counts["distinct_schedules"] += len(hashes)
+        sample = {"state": "restarted" if restart else "running", "sessions": plans, "distinct_schedules": len(hashes), "commands": ncmds}
+        key = common.h(["sched", plans, restart])
+        if witness:
+            cases.append(Case.make(f"sched{k}", VIOLATED, spec=dict(spec, scripts=[k]), nontrivial=True, key=key, sample=sample, witness=witness))
+        elif not hashes:
+            cases.append(Case.make(f"sched{k}", INCONCLUSIVE, spec=dict(spec, scripts=[k]), reason="no schedule completed", sample=sample))
+        else:
+            cases.append(Case.make(f"sched{k}", HELD, spec=dict(spec, scripts=[k]), nontrivial=len(hashes) > 1, key=key, sample=sample))
+    return {"cases": cases, "counts": dict(counts)}
+
+
 def plan(tier, seed, scale):
-    return base.plan_scripts(PROP, tier, seed, scale, quick=256, thorough=3200, extra={"compare_timeouts": True})
+    specs = base.plan_scripts(PROP, tier, seed, scale, quick=256, thorough=3200, extra={"compare_timeouts": True})
+    n = int((48 if tier == "quick" else 900) * scale)
+    shards = 8 if tier == "quick" else 16
+    for s in range(shards):
+        specs.append({"prop": PROP, "tier": tier, "seed": seed, "shard": 100 + s, "mode": "sched", "scripts": list(range(n))[s::shards], "nsched": 5 if tier == "quick" else 20})
+    return specs
 
 
 def replay_specs(rp):
